@@ -22,6 +22,9 @@ REF_ATTRS = ("coordinates", "bounds", "climatology", "cell_measures", "ancillary
              "external_variables")
 
 
+INHERITED_BY_BOUNDS = ("units", "calendar", "standard_name", "axis", "positive", "leap_month", "leap_year", "month_lengths")
+
+
 # ------------------------------------------------------------------ building
 def make_array(shape, dtype, base, mask):
     n = int(np.prod(shape)) if shape else 1
@@ -149,6 +152,16 @@ def jdata(x):
         vals = [None if m else v for v, m in zip(a.data.ravel().tolist(), mask.ravel().tolist())]
         dt = a.dtype.name          # byte order is a storage detail, not part of the data type
     out = {"shape": list(a.shape), "dtype": dt, "vals": vals}
+    # the array has been recorded: scribble over it in place, so that an array that aliases the
+    # construct's (or the file cache's) internal state shows up on the next read of the same data
+    try:
+        raw = a.data if isinstance(a, np.ma.MaskedArray) else a
+        if raw.flags.writeable and raw.size:
+            raw[...] = "zz" if raw.dtype.kind in "SU" else (1 if raw.dtype.kind == "b" else 97)
+        if isinstance(a, np.ma.MaskedArray) and a.mask is not np.ma.nomask and a.mask.flags.writeable:
+            a.mask[...] = ~a.mask
+    except (ValueError, TypeError):
+        pass
     u = d.get_units(None)
     if u is not None:
         out["units"] = u
@@ -167,7 +180,10 @@ def content(x, ctype):
     c = {"type": ctype, "props": jprops(x), "data": jdata(x)}
     if hasattr(x, "has_bounds") and x.has_bounds():
         b = x.bounds
-        c["bounds"] = {"props": jprops(b), "data": jdata(b)}
+        # CF: a boundary variable inherits these attributes from its parent coordinate variable; a bounds
+        # property that merely repeats the parent's value is the same content as its absence
+        bp = {k: v for k, v in jprops(b).items() if not (k in INHERITED_BY_BOUNDS and c["props"].get(k) == v)}
+        c["bounds"] = {"props": bp, "data": jdata(b)}
     if hasattr(x, "is_climatology") and x.is_climatology():
         c["climatology"] = True
     if hasattr(x, "get_geometry") and x.get_geometry(None) is not None:
@@ -399,6 +415,9 @@ def run_case(c, scratch, n):
             row["names_lost"] = miss
             row["comp"] = [c.compliance if hasattr(c, "compliance") else None for c in ()]
             row["rskel"] = read_skeleton(g)
+            # a second look at the construct read (after the arrays of the first look were scribbled over)
+            fp2, names2 = fingerprint(g)
+            row["read_stable"] = (fp2 == fp1 and names2 == names1)
             row["noncompliance"] = bool(g.dataset_compliance()) if hasattr(g, "dataset_compliance") else False
         except Exception as ex:
             row["harness_err"] = "fingerprint(after): " + type(ex).__name__ + ": " + str(ex)[:300]
